@@ -479,6 +479,7 @@ Proof.
   - cbn [fst]. split; [eapply WF_same; [| |exact H]; reflexivity|apply Left_same; reflexivity].
   - cbn [fst]. split; [exact H|apply Left_refl].
   - cbn [fst]. split; [exact H|apply Left_refl].
+  - cbn [fst]. split; [exact H|apply Left_refl].
 Qed.
 
 Lemma WF_init maxw : WF (init maxw).
